@@ -228,7 +228,8 @@ def check_interface(p, reach, r):
                 continue
             if not any(isinstance(x, ast.Raise) for s_ in final_else for x in ast.walk(s_)):
                 continue
-            key = site(fi, n, f'dispatch:{subject}', same=lambda x: isinstance(x, ast.If) and '__class__.__name__' in ast.unparse(x.test))
+            # (keyed by what the dispatch accepts and its position among the dispatches of the function, not by the name of a local)
+            key = site(fi, n, f'edge-type-dispatch[accepts {"+".join(sorted(accepted))}]', same=lambda x: isinstance(x, ast.If) and '__class__.__name__' in ast.unparse(x.test))
             missing = [nm for nm in names if nm not in accepted]
             if missing:
                 r.fail('C20.R2', key, f'dispatch on `{subject}.__class__.__name__` accepts {sorted(accepted)} and raises otherwise: '
@@ -445,8 +446,21 @@ def check_validations(p, r):
             r.ok('C20.R4', key, what, src(cls_rel), hit.lineno)
         else:
             r.fail('C20.R4', key, f'validation removed: {what} - the invalid configuration is silently simulated', src(cls_rel), fi.node.lineno)
-    need('edges/edge.py', 'Edge', '__init__', 'capacity', lambda t, n=None: n is not None and guard_rejects(n, ('capacity', 'self.capacity'), bad=(0, -3, 2.5, None, '4'), good=(1, 7)),
-         'capacity must be a positive int')
+    # capacity: the raise-guards of Edge.__init__ that mention the capacity, taken together, reject every non-int / non-positive value
+    ci_e = p.cls('edges/edge.py', 'Edge')
+    init_e = ci_e.methods.get('__init__')
+    key_c = 'edges/edge.py::Edge.__init__::validates:capacity'
+    if init_e is None:
+        r.fail('C20.R4', key_c, '__init__ missing', src('edges/edge.py'), ci_e.node.lineno)
+    else:
+        from .common import guards_reject
+        gs = [n.test for n in walk_no_nested(init_e.node) if isinstance(n, ast.If) and n.body and isinstance(n.body[-1], ast.Raise) and 'capacity' in ast.unparse(n.test)]
+        gs.sort(key=lambda t: (t.lineno, t.col_offset))
+        r.analysed_functions.add(init_e.key)
+        if gs and guards_reject(gs, ('capacity', 'self.capacity'), bad=(0, -3, 2.5, None, '4'), good=(1, 7)):
+            r.ok('C20.R4', key_c, 'capacity must be a positive int', src('edges/edge.py'), gs[0].lineno)
+        else:
+            r.fail('C20.R4', key_c, 'validation removed: capacity must be a positive int - the invalid configuration is silently simulated', src('edges/edge.py'), init_e.node.lineno)
     need('edges/buffer.py', 'Buffer', '__init__', 'mode', lambda t: 'self.modenotin' in t and 'FIFO' in t and 'LIFO' in t, 'mode must be FIFO or LIFO')
     import re as _re
     nonneg = lambda t: bool(_re.fullmatch(r'assert:(\w+)>=0|assert:0<=(\w+)|(\w+)<0|0>(\w+)', t))    # noqa: E731
